@@ -343,8 +343,11 @@ def place_configs(cmd, where, dirs, states):
                 f.write("[project]\nname = \"x\"\n\n" + disc_toml(cmd, v, "tool.pyscn."))
             ids[v] = (where, lvl, "pyproject")
         if st in ("plain", "pyscn+plain"):
+            # a pyproject.toml that is not pyscn's: another tool's table, no [tool] table at all, or not even TOML
+            texts = ["[project]\nname = \"x\"\n\n[tool.other]\nmin_cbo = 77\n", "[project]\nname = \"x\"\n\n[build-system]\nrequires = []\n",
+                     "[project\nname = x\n[tool.pyscn.cbo]\nmin_cbo = 78\n"]
             with open(os.path.join(dd, "pyproject.toml"), "w") as f:
-                f.write("[project]\nname = \"x\"\n\n[tool.other]\nmin_cbo = 77\n")
+                f.write(texts[(lvl + len(dirs) + len(where)) % 3])
     return ids
 
 
